@@ -436,6 +436,35 @@ func directedIfaceRelDocs(s *gen.Schema) []*gen.Doc {
 				docs = append(docs, &gen.Doc{Ops: []*gen.Op{{Kind: "query", Name: "D6", Sel: roots}}})
 			}
 		}
+		// (g) a field due under "condition at the outer level OR condition at the inner level" (open finding C01-F6):
+		// nodes { relOwner { relNode { ... on T { id } } } ... on T { relOwner { relNode { id } } } }
+		if rn := target.Field("relNode"); rn != nil {
+			idSel := func(parent string) *gen.Sel {
+				return &gen.Sel{Field: &gen.FieldSel{Name: "id", Def: node.Field("id"), Parent: parent}}
+			}
+			inner := func(parent string, def *gen.Field, cond bool) *gen.Sel {
+				var sub []*gen.Sel
+				if cond {
+					sub = []*gen.Sel{{Inline: &gen.InlineFrag{On: t.Name, Parent: "Node", Sel: []*gen.Sel{idSel(t.Name)}}}}
+				} else {
+					sub = []*gen.Sel{idSel("Node")}
+				}
+				return &gen.Sel{Field: &gen.FieldSel{Name: "relOwner", Def: def, Parent: parent, Sel: []*gen.Sel{{Field: &gen.FieldSel{Name: "relNode", Def: rn, Parent: target.Name, Sel: sub}}}}}
+			}
+			var roots []*gen.Sel
+			for _, rf := range []string{"nodes", "someNode"} {
+				if def := q.Field(rf); def != nil {
+					roots = append(roots, &gen.Sel{Field: &gen.FieldSel{Name: rf, Def: def, Parent: s.Query, Sel: []*gen.Sel{
+						{Field: &gen.FieldSel{Name: "__typename", Parent: "Node"}},
+						inner("Node", node.Field("relOwner"), true),
+						{Inline: &gen.InlineFrag{On: t.Name, Parent: "Node", Sel: []*gen.Sel{inner(t.Name, t.Field("relOwner"), false)}}},
+					}}})
+				}
+			}
+			if len(roots) > 0 {
+				docs = append(docs, &gen.Doc{Ops: []*gen.Op{{Kind: "query", Name: "D7", Sel: roots}}})
+			}
+		}
 		// (e) below a union-typed parent all three are real type conditions: `... on Node`, `... on Owned`, `... on T`
 		if ow, sr := s.Type("Owned"), s.Type("SearchResult"); ow != nil && sr != nil && s.Overlap(t.Name, "Owned") && s.Overlap(t.Name, "SearchResult") {
 			if def := q.Field("search"); def != nil {
